@@ -1,0 +1,76 @@
+//go:build verif
+
+// Contracts for the govc verifier (/verif). This file contains comments only; it is compiled
+// only under the build tag "verif" and contributes no declarations.
+package bn256
+
+// ---------------------------------------------------------------------------------------------
+// Wire form of curve points (C14, the encoding clause). A point of G1 travels as two 32-byte big-endian field
+// elements. For "verification accepts exactly one byte string per signature" the decoder must accept a coordinate
+// only in its canonical form, i.e. strictly below the field modulus p: the Montgomery encoding that follows
+// reduces modulo p, so x and x+p would otherwise denote the same point. limb(in, o) is the 64-bit big-endian word
+// at offset o; belowP compares four words, most significant first, with the words of p
+// (p = 65000549695646603732796438742359905742825358107623003571877145026864184071783).
+//@ spec fn limb(in []byte, o int) uint64 = uint64(in[o])<<56 | uint64(in[o+1])<<48 | uint64(in[o+2])<<40 | uint64(in[o+3])<<32 | uint64(in[o+4])<<24 | uint64(in[o+5])<<16 | uint64(in[o+6])<<8 | uint64(in[o+7])
+//@ spec fn belowP(a uint64, b uint64, c uint64, d uint64) bool = a < 10355184993929758713 || (a == 10355184993929758713 && (b < 12281294985516866593 || (b == 12281294985516866593 && (c < 17175472035685840286 || (c == 17175472035685840286 && d < 1755467536201717351)))))
+//@ spec fn canonCoord(in []byte, o int) bool = belowP(limb(in, o), limb(in, o+8), limb(in, o+16), limb(in, o+24))
+
+// The arithmetic of the field and the curve is outside the verifier's reach (assembly / Montgomery form).
+//@ func montEncode
+//@   option trusted
+//@   requires c != nil && a != nil
+//@   modifies *c
+
+//@ func newGFp
+//@   option trusted
+//@   ensures result != nil && fresh(result)
+//@   modifies nothing
+
+//@ func curvePoint.IsOnCurve
+//@   option trusted
+//@   requires c != nil
+//@   modifies *c
+
+//@ func gfP.Unmarshal
+//@   property C14
+//@   requires e != nil && len(in) >= 32
+//@   loop 0: invariant w <= 4 && (w >= 1 ==> e[3] == limb(in, 0)) && (w >= 2 ==> e[2] == limb(in, 8)) && (w >= 3 ==> e[1] == limb(in, 16)) && (w >= 4 ==> e[0] == limb(in, 24))
+//@   loop 1: invariant w < 4 && b <= 8 && e[3-w] == (limb(in, int(8*w)) >> (64 - 8*b)) << (64 - 8*b)
+//@   loop 1: invariant (w >= 1 ==> e[3] == limb(in, 0)) && (w >= 2 ==> e[2] == limb(in, 8)) && (w >= 3 ==> e[1] == limb(in, 16))
+//@   requires [const!init] p2[3] == 10355184993929758713 && p2[2] == 12281294985516866593 && p2[1] == 17175472035685840286 && p2[0] == 1755467536201717351
+//@   loop 2: invariant -1 <= i && i <= 3 && (i < 3 ==> e[3] == p2[3]) && (i < 2 ==> e[2] == p2[2]) && (i < 1 ==> e[1] == p2[1]) && (i < 0 ==> e[0] == p2[0])
+//@   loop 2: invariant e[3] == limb(in, 0) && e[2] == limb(in, 8) && e[1] == limb(in, 16) && e[0] == limb(in, 24)
+//@   ensures [value] e[3] == limb(in, 0) && e[2] == limb(in, 8) && e[1] == limb(in, 16) && e[0] == limb(in, 24)
+//@   ensures [canon] (result == nil) == canonCoord(in, 0)
+//@   modifies *e
+
+//@ func G1.Unmarshal
+//@   property C14
+//@   requires e != nil
+//@   ensures [short] len(m) < 64 ==> result1 != nil
+//@   ensures [rest]  result1 == nil ==> len(result0) == len(m) - 64
+//@   ensures [canon] result1 == nil ==> canonCoord(m, 0) && canonCoord(m, 32)
+//@   ensures [alloc] e.p == old(e.p) || fresh(e.p)
+//@   modifies e.p, *e.p
+
+// G2: four coordinates (the two components of x and of y over the quadratic extension).
+//@ func gfP2.IsZero
+//@   option trusted
+//@   modifies nothing
+//@ func gfP2.SetOne
+//@   option trusted
+//@   modifies *e
+//@ func gfP2.SetZero
+//@   option trusted
+//@   modifies *e
+//@ func twistPoint.IsOnCurve
+//@   option trusted
+//@   requires c != nil
+//@   modifies *c
+
+//@ func G2.Unmarshal
+//@   property C14
+//@   requires e != nil
+//@   ensures [short] len(m) < 128 ==> result1 != nil
+//@   ensures [rest]  result1 == nil ==> len(result0) == len(m) - 128
+//@   ensures [canon] result1 == nil ==> canonCoord(m, 0) && canonCoord(m, 32) && canonCoord(m, 64) && canonCoord(m, 96)
